@@ -18,6 +18,26 @@ CLAIMS = {
             'generated WorkChain classes and the model on the same ~12k (quick) outlines x streams, bounded-exhaustive up to 4 instruction nodes.',
             'DESIGN.md section 4 C09', COMMON_NOTE + 'Awaited futures are already complete (the barrier is C10). Empty bodies are outside the theorem (wf_outline), their behaviour is still compared.',
             'Coq proof: stepper machine = big-step semantics (sound+complete) + vm_compute correspondence'),
+    'C11': ('Machine-checked proof (Coq) that the validation algorithm of ports.py (pops, clone, dynamic check, validators; model Ports/PortModel.v) '
+            'decides exactly the declarative conformance relation of Ports/PortSpec.v, that construction succeeds iff the inputs completed with the '
+            'declared defaults conform, that every entry of the completed inputs is exactly the supplied value / declared default / frozen completion, '
+            'and that every declared namespace level is a frozen mapping — for every port tree, every validator and every nested input, no bound on '
+            'size or depth. Model tied to the code by constructing real Process subclasses on ~14k generated (spec, inputs) pairs per quick run.',
+            'DESIGN.md section 4 C11', COMMON_NOTE + 'The aliasing half (raw_inputs / caller dictionary untouched) is outside the functional model and is checked on the implementation by the oracle on every case. Domain guard: values at declared namespace keys are dicts or non-iterable scalars.',
+            'Coq proof: validate = declarative conformance, completion spec, frozenness + vm_compute correspondence'),
+    'C12': ('Machine-checked proof (Coq) over the model of Process.out / on_finish: an emission to a declared, undeclared or nested (dynamically created) '
+            'port is stored iff the located port/namespace accepts the value and is a ValueError otherwise; an accepted value is found under its path '
+            'and nothing outside the first path component changes; success <-> returned successfully and the collected outputs conform to the output '
+            'spec (via the C11 conformance theorem). For every spec, validator, path and value. Tied to the code by ~2.8k real executions per quick run.',
+            'DESIGN.md section 4 C12', COMMON_NOTE + 'Path components non-empty. Listener/future agreement is checked on the implementation by the oracle.',
+            'Coq proof: out/accept characterisation, frame, success iff conformance + vm_compute correspondence'),
+    'C20': ('Machine-checked proof (Coq) over the model of the future adapters: for every nesting depth, every terminal outcome and every completion order '
+            '(any permutation, no bound) the unwrapping future ends with exactly the innermost outcome, set exactly once, and is untouched before the last '
+            'level completes; a CancellableAction satisfies a complete functional specification over every run/cancel sequence (function called at most once, '
+            'iff the first op is run; later runs raise, later cancels return False). Tied to the code by running real concurrent.futures/asyncio futures '
+            'through unwrap_kiwi_future, plum_to_kiwi_future, Process._schedule_rpc, create_task and CancellableAction on all orders up to depth 4.',
+            'DESIGN.md section 4 C20', COMMON_NOTE + 'PARTIAL: single thread only (levels completed by the harness thread, loop drained after each event); no theorem about completion from a second OS thread; the consumer does not cancel the adapter future.',
+            'Coq proof: invariant over completion sequences (unwrap), functional spec of CancellableAction + vm_compute correspondence'),
 }
 
 NOT_YET = 'check under construction in this build session (model/theorems not committed yet); see DESIGN.md section 4'
